@@ -37,6 +37,15 @@ pub fn run_gt(a: &Args, out: &mut Out) {
     let pool = load_pool(&a.pool, "Fr");
     let mut rng = rng_from(a.seed, "gt");
     out.call("gt.one", json!({}), || outs! {"out" => b(&Gt::one().to_slice())});
+    // sweep: every exponent whose MONTGOMERY representation is a tiny integer or has a single non-zero limb (TLC-generated)
+    if a.focus != "nosweep" {
+        let g = pairing(G1::one(), G2::one());
+        let sg = g.to_slice();
+        for v in pool.lo.iter() {
+            let s = Fr::from_slice(v).unwrap();
+            out.call("gt.pow", json!({"a": b(&sg), "k": b(&s.to_slice())}), || outs! {"out" => b(&g.pow(s).to_slice())});
+        }
+    }
     let mut k = 0u64;
     while !out.full() {
         k += 1;
